@@ -233,3 +233,26 @@ def replay_witness(w):
     if w.get("case") == "direct":
         return "; ".join(direct_values_check()) or None
     return None
+
+
+def canon_order_dependence():
+    """native search: two orderings of the same distinct keys for which the real canonsort_keys differs (or loses / raises)"""
+    import itertools
+    from icalendar.caselessdict import canonsort_keys
+    names = ["A", "B", "C", "D"]
+    pool = ["A", "C", "X-A", "a", "Z", ""]
+    for order in [None] + [tuple(p) for r in range(0, 4) for p in itertools.permutations(names, r)]:
+        for r in range(0, 4):
+            for ks in itertools.combinations(pool, r):
+                outs = set()
+                for perm in itertools.permutations(ks):
+                    try:
+                        got = tuple(canonsort_keys(list(perm), order))
+                    except Exception as e:  # noqa
+                        return {"canon_perm": True, "keys": list(perm), "order": order}, f"canonsort_keys({list(perm)!r}, {order!r}) raises {type(e).__name__}"
+                    if sorted(got) != sorted(perm):
+                        return {"canon_perm": True, "keys": list(perm), "order": order}, f"canonsort_keys({list(perm)!r}, {order!r}) = {list(got)!r}: not a permutation"
+                    outs.add(got)
+                if len(outs) > 1:
+                    return {"canon_perm": True, "keys": list(ks), "order": order}, f"canonsort_keys of the keys {list(ks)!r} with order {order!r} depends on their order: {sorted(outs)!r}"
+    return None
